@@ -63,6 +63,11 @@ C04_Q = [
     H("s4_empty_d2_12", STEP + "InsideEmpty; depth 2, lengths 1,2; " + SHAPE, ["End"], cost=2),
     H("s4_empty_d1_2", STEP + "InsideEmpty; depth 1, length 2; " + SHAPE, ["End"], cost=2),
 ]
+C04_T = [
+    H("s4_end_d2_22_n4", STEP + "end tag <=4 bytes; depth 2, lengths 2,2; " + SHAPE, ["End", "IllFormedError"], cost=5),
+    H("s4_end_d1_1_n4", STEP + "end tag <=4 bytes; depth 1, length 1; " + SHAPE, ["End", "IllFormedError"], cost=5),
+    H("s4_tag_d2_22_n3", STEP + "start/empty tag <=3 bytes; depth 2, lengths 2,2; " + SHAPE, ["Start"], cost=5),
+]
 C08_Q = [
     H("s8_tag_n4", STEP + "C08 settings, start/empty tag <=4 bytes", ["Start", "Empty"], cost=3),
     H("s8_end_n4", STEP + "C08 settings, end tag <=4 bytes", ["End"], cost=3),
@@ -286,7 +291,7 @@ PLAN = {
     },
   },
   "C03": {"quick": EMIT_Q + STEP1_Q, "thorough": STEP1_T, "owns_panics": True, "evidence": {}},
-  "C04": {"quick": C04_Q, "thorough": [], "labels": ["C04", "C16"], "evidence": {}},
+  "C04": {"quick": C04_Q, "thorough": C04_T, "labels": ["C04", "C16"], "evidence": {}},
   "C08": {"quick": C08_Q + C08_W, "thorough": C08_WT, "evidence": {}},
   "C19": {"quick": C19_Q, "thorough": [], "evidence": {}},
   "C16": {"quick": C16_Q + [H("e_start_n8", "ReaderState::emit_start on every scanner output <=8 bytes (expansion: the remembered name)", [], cost=2)], "thorough": C16_T, "labels": ["C16", "C01"], "evidence": {}},
